@@ -473,6 +473,33 @@ func handle(b []byte) []byte {
 func main() {
 	flag.Parse()
 	par.ServeIfWorker(map[string]par.Handler{"x": handle, "loop": xrun.Handler(runLoop)})
+	if v, ok := ev.ReplayRequested(); ok {
+		var name string
+		var schedule []string
+		if strings.HasPrefix(v.Part, "cancel-sync-loop") {
+			xrun.Replay(v, runLoop)
+			return
+		}
+		if v.ReplayField("scenario", &name) && v.ReplayField("schedule", &schedule) {
+			for _, sc := range scenarios() {
+				if sc.name == name {
+					for round := 1; round <= 2; round++ {
+						ctx := explore.NewCtx(nil)
+						ctx.Follow = schedule
+						var viols []violRec
+						out := runOnce(sc, ctx, &viols)
+						fmt.Printf("  re-execution %d: outcome %s (%d steps) divergence=%q\n", round, out, len(ctx.Trace), ctx.Diverged)
+						for _, x := range viols {
+							fmt.Printf("    violation %s: %s\n", x.Sig, x.Msg)
+						}
+					}
+				}
+			}
+		} else {
+			fmt.Printf("  replay artefact: %v\n", v.Replay)
+		}
+		return
+	}
 	if dbg := os.Getenv("VERIF_DEBUG_SCENARIO"); dbg != "" {
 		var si int
 		fmt.Sscan(dbg, &si)
@@ -595,8 +622,9 @@ var reRaceFn = regexp.MustCompile(`(?m)^  (github\.com/PowerDNS/lightningstream/
 func racePass(r *ev.Run) {
 	p := &ev.Part{Name: "e-race-pass (sampling, not exhaustive)", Engine: "-race", Exhaustive: false}
 	defer r.AddPart(p)
-	build := exec.Command("go", "build", "-race", "-tags", "verif", "-o", "/verif/.build/c17race", "./checks/c17race")
-	build.Dir = "/verif/mc"
+	raceBin := ev.VerifRoot + "/.build/c17race"
+	build := exec.Command("go", "build", "-race", "-tags", "verif", "-o", raceBin, "./checks/c17race")
+	build.Dir = ev.VerifRoot + "/mc"
 	build.Env = append(os.Environ(), "GOFLAGS=-mod=mod", "GOPROXY=off")
 	if out, err := build.CombinedOutput(); err != nil {
 		p.Bound = "race build failed: " + string(out)
@@ -605,7 +633,7 @@ func racePass(r *ev.Run) {
 		return
 	}
 	rounds := ev.Pick(r, 5, 60)
-	cmd := exec.Command("/verif/.build/c17race", "-rounds", fmt.Sprint(rounds), "-dur", "300ms")
+	cmd := exec.Command(raceBin, "-rounds", fmt.Sprint(rounds), "-dur", "300ms")
 	cmd.Env = append(os.Environ(), "GORACE=halt_on_error=0 exitcode=66")
 	out, err := cmd.CombinedOutput()
 	text := string(out)
